@@ -196,7 +196,7 @@ def record(o: Outcome, cases, rejected, *, keys=("src", "incl", "base")):
         o.nontrivial.add(json.dumps(c["src"], sort_keys=True))
     for i, fl in rejected.items():
         c = cases[i]
-        o.violate(fl[0]["clause"], {k: c.get(k) for k in keys},
+        o.violate(fl[0]["clause"], {**{k: c.get(k) for k in keys}, "beh": []},
                   {"clauses": [f["clause"] for f in fl], "diag": fl[0].get("diag"),
                    "text": c.get("text"), "maps": c.get("maps")})
 
